@@ -37,7 +37,7 @@ ASSUMPTIONS = ['pre-states are produced by a generator (1-2 agents in loc1, one 
                'legacy deriver per agent, symbolic values); every operation is '
                'applied through the engine by the update of a process or of a '
                'flow step (symbolic flag)']
-BOUNDS = {'quick': '13 single/combined operations x generated pre-states, one '
+BOUNDS = {'quick': '14 single/combined operations x generated pre-states, one '
                    'step', 'thorough': 'histories of 2 steps over the same '
                                        'operations'}
 OUTSIDE = '_reduce; deeper nesting than 2'
@@ -127,7 +127,7 @@ def under(p, pre):
 
 OPS = ['add', 'del_key', 'del_tuple', 'del_deep', 'gen', 'div', 'move',
        'add_existing', 'combo_add_del_move', 'combo_move_del', 'combo_gen_div',
-       'del_nested', 'add_leaf']
+       'del_nested', 'add_leaf', 'move_update']
 
 
 def jobs(tier):
@@ -215,6 +215,14 @@ def make_op(ctx, kind, state, vals_new, fresh):
                                      'target': ('loc2',)}]}},
                 [('loc1', first)], [('loc2', first)],
                 {'moved': (('loc1', first), ('loc2', first))})
+    if label == 'move_update':
+        # a move that carries an update for the moved subtree: applied through
+        # the variables' updaters (x accumulates)
+        return ({'loc1': {'_move': [{'source': (first,), 'target': ('loc2',),
+                                     'update': {'s': {'x': vals_new}}}]}},
+                [('loc1', first)], [('loc2', first)],
+                {'moved': (('loc1', first), ('loc2', first)),
+                 'moved_update': {('loc1', first, 's', 'x'): vals_new}})
     if label == 'combo_add_del_move':
         if second is None:
             return None
@@ -390,7 +398,9 @@ def body(ctx, cfg):
                         cr.append(False)
                         continue
                     v2 = after[q][1]
-                    if is_sym(v) or is_sym(v2):
+                    if p in checks.get('moved_update', {}):
+                        cr.append(EQ(v2, v + checks['moved_update'][p]))
+                    elif is_sym(v) or is_sym(v2):
                         cr.append(EQ(v, v2))
                     else:
                         cr.append(v == v2)   # same process object and wiring
